@@ -69,8 +69,8 @@ Proof. exact law_delete_empty_bucket. Qed.
 Print Assumptions C02_delete_emptied_ok.
 
 (* a copy leaves the destination equal to the source and the source unchanged *)
-Theorem C02_copy : forall c s sb sk b k s1 body,
-  step c s (OCopy sb sk b k) = (s1, RCopy body) ->
+Theorem C02_copy : forall c s sb sk b k m s1 body,
+  step c s (OCopy sb sk b k m) = (s1, RCopy body) ->
   (exists v sv, get_object s sb sk = OObj v sv /\ vd_body v = body) /\
   (exists v' sv', get_object s1 b k = OObj v' sv' /\ vd_body v' = body) /\
   ((sb, sk) <> (b, k) -> get_bucket s sb <> None -> get_object s1 sb sk = get_object s sb sk).
